@@ -1,4 +1,4 @@
-#!/usr/bin/env python3
+#!/usr/bin/env python3-vt
 """Entry point of every check:  ./check.py <property> [--tier quick|thorough] [--replay <path>]
 
 exit 0 = property held on everything explored (KNOWN-FINDING lines allowed)
